@@ -37,8 +37,9 @@ EVIDENCE = {
         'buffer-load packets are unacknowledged by protocol and are never dropped; flash-write replies are lost or '
         'negative, never merely late',
         'bytes of the last flash page beyond the end of the image are unspecified (whole pages are written)',
-        'public flash(): soft-device / bootloader artifacts, deck targets and warm boot are not exercised (nRF51 images '
-        'declare the soft-device the target already runs)',
+        'public flash(): a quarter of the public runs upgrade the nRF51 soft device + bootloader (erase of the first '
+        'firmware page, image at the top of the flash, reset into the new bootloader which reports start page 108 instead '
+        'of 88, firmware for the new layout); deck targets and warm boot are not exercised',
     ],
 }
 
